@@ -93,8 +93,12 @@ def inputs(shape, sig):
 def gen_case(rng):
     shape = rng.choice([0, 0, 1, 1, 2, 2, 3, 4, 4, 5, 5])
     if shape == 0:
-        wrap = rng.choice([0, 1, 2, 3, 3, 4, 4])
-    elif shape in (1, 2, 4, 5):
+        wrap = rng.choice([0, 1, 2, 3, 3, 4, 4, 5, 6, 7])
+    elif shape == 4:
+        wrap = rng.randrange(14)       # constructor x (inner node | the wrapper's own impls), see c10.rs
+    elif shape == 5:
+        wrap = rng.randrange(10)
+    elif shape in (1, 2):
         wrap = rng.randint(0, 1)
     else:
         wrap = 0
@@ -114,8 +118,8 @@ def gen_case(rng):
         elif r < 0.28:
             evs.append([1])
             nf += 1
-        elif r < 0.33 and shape != 5 and wrap < 3:
-            evs.append([2, rng.randint(7000, 7006)])
+        elif r < 0.33 and shape != 5 and not (shape == 0 and wrap in (3, 4)):
+            evs.append([2, rng.randint(7000, 7006)] + ([rng.randint(1, 3)] if rng.random() < 0.5 else []))
             manual = True
         elif r < 0.36 and manual:
             evs.append([3])
@@ -126,7 +130,10 @@ def gen_case(rng):
         elif r < 0.76:
             evs.append([6, [rng.randint(0, 3) for _ in range(rng.randint(0, 3))]])
         elif r < 0.84 or na == 0:
-            evs.append([7, rng.choice([0, 1, 1])])
+            if rng.random() < 0.2:
+                evs.append([7, 0, 1])       # await through by_ref()
+            else:
+                evs.append([7, rng.choice([0, 1, 1])])
             na += 1
         else:
             # awaiters are polled again and again, each time with a fresh waker
@@ -266,7 +273,12 @@ def generate(rng, tier):
             yield dict(case=gen_transition(rng), kind="transition")
             continue
         c = gen_case(rng)
-        if rng.random() < 0.1:
+        if c[0] in (0, 1) and (c[0] == 1 or c[1] in (0, 1, 2, 5)) and rng.random() < 0.12:
+            # the `_with_initial` constructors (value present at once, first load still runs) are not in the Coq
+            # model either
+            c[3] = [9001]
+            yield dict(case=c, kind="with-initial", compare=False)
+        elif rng.random() < 0.1:
             # synchronous reads under the Suspense boundary (event 9) are not in the Coq model: such cases are
             # judged by the oracle alone
             evs = c[4]
@@ -304,7 +316,7 @@ def oracle(item, impl):
     parked = {}          # awaiter -> wake count right after it was last polled and stayed pending
     sus_flags = []       # per awaiter: created under the Suspense boundary
     sus_polled = False   # a child under the boundary awaited the node since the last load started
-    first_started = bool(initial) or shape == 5
+    first_started = (bool(initial) and shape == 3) or shape == 5
     for j, e in enumerate(evs):
         if e[0] == 0 and e[1] < 3:
             sig[e[1]] = e[2]
@@ -425,21 +437,33 @@ def valid_case(item):
         if len(case) not in (5, 6):
             return False
         shape, wrap, dep, initial, evs = case[:5]
-        if shape not in (0, 1, 2, 3, 4, 5) or wrap not in (0, 1, 2, 3, 4) or dep not in (0, 1, 2):
+        maxw = {0: 7, 1: 1, 2: 1, 3: 0, 4: 13, 5: 9}
+        if shape not in maxw or not isinstance(wrap, int) or not 0 <= wrap <= maxw[shape] or dep not in (0, 1, 2):
             return False
-        if shape == 3 and wrap != 0:
+        if not isinstance(initial, list) or len(initial) > 1:
             return False
-        if wrap >= 2 and shape != 0:
-            return False
-        if not isinstance(initial, list) or len(initial) > 1 or (initial and (shape != 3 or initial[0] != 0)):
+        if initial and shape != 3:
+            # `_with_initial` constructors: oracle-only cases
+            if item.get("compare", True) or initial != [9001] or not (shape == 1 or (shape == 0 and wrap in (0, 1, 2, 5))):
+                return False
+        elif initial and initial[0] != 0:
             return False
         ar = {0: 3, 1: 1, 2: 2, 3: 1, 4: 2, 5: 2, 6: 2, 7: 2, 8: 2, 9: 1}
+        local = shape == 0 and wrap in (3, 4)
         if any(isinstance(e, list) and e and e[0] == 9 for e in evs) and item.get("compare", True):
             return False
         manual = False
         na = 0
         for e in evs:
-            if not isinstance(e, list) or not e or e[0] not in ar or len(e) != ar[e[0]]:
+            if not isinstance(e, list) or not e or e[0] not in ar:
+                return False
+            if e[0] == 2 and len(e) == 3:
+                if e[2] not in (1, 2, 3):
+                    return False
+            elif e[0] == 7 and len(e) == 3:
+                if e[1:] != [0, 1]:
+                    return False
+            elif len(e) != ar[e[0]]:
                 return False
             if e[0] == 6:
                 if not isinstance(e[1], list) or any((not isinstance(p, int)) or p < 0 for p in e[1]):
@@ -448,7 +472,7 @@ def valid_case(item):
                 return False
             if e[0] == 0 and (e[1] > 2 or e[2] > 5):
                 return False
-            if e[0] in (2, 3) and (shape == 5 or wrap >= 3):
+            if e[0] in (2, 3) and (shape == 5 or local):
                 return False
             if e[0] == 7 and e[1] > 1:
                 return False
@@ -481,7 +505,22 @@ def describe(it):
             show_items(case[1]), " [model variant restore = false]" if len(case) > 3 and case[3] else "",
             "; ".join("%s%s" % (EV.get(e[0], "?"), tuple(e[1:])) for e in case[2]))
     shape, wrap, dep, initial, evs = case[:5]
-    head = "%s node, %s, dependent=%s, initial=%r" % (["Arc", "arena", "unsync+refetch (LocalResource-like)", "leptos_server ArcLocalResource", "leptos_server LocalResource"][wrap], SH[shape], dep, initial)
+    if shape == 0:
+        wn = ["Arc", "arena", "unsync+refetch (LocalResource-like)", "leptos_server ArcLocalResource", "leptos_server LocalResource",
+              "AsyncDerived<_, LocalStorage>::new_unsync", "AsyncDerived::from_local(ArcAsyncDerived::new_unsync)",
+              "AsyncDerived::from(ArcAsyncDerived::new)"][wrap]
+    elif shape == 4:
+        wn = ["ArcResource::new (inner node)", "Resource::new (inner node)", "ArcResource::new", "Resource::new",
+              "ArcResource::new_blocking", "Resource::new_blocking", "ArcResource::new_str", "Resource::new_str",
+              "ArcResource::new_str_blocking", "Resource::new_str_blocking", "ArcResource::new_with_options",
+              "Resource::new_with_options", "ArcResource::from(Resource)", "Resource::from(ArcResource::new_str)"][wrap]
+    elif shape == 5:
+        wn = ["ArcOnceResource::new", "OnceResource::new", "ArcOnceResource::new_blocking", "OnceResource::new_blocking",
+              "ArcOnceResource::new_str", "OnceResource::new_str", "ArcOnceResource::new_str_blocking",
+              "OnceResource::new_str_blocking", "ArcOnceResource::new_with_options", "OnceResource::new_with_options"][wrap]
+    else:
+        wn = ["Arc", "arena"][wrap]
+    head = "%s node, %s, dependent=%s, initial=%r" % (wn, SH[shape], dep, initial)
     if len(case) > 5 and case[5]:
         head += " [pre-fix model variant %d]" % case[5]
     return head + ": " + "; ".join("%s%s" % (EV.get(e[0], "?"), tuple(e[1:]) if len(e) > 1 else "") for e in evs)
